@@ -383,6 +383,8 @@ class Ctx:
         return self.model_many([line])[0]
 
 
+SELF_VERDICTS = ("ROUTE-MISMATCH", "WRITER-MISMATCH", "READER-MISMATCH", "LENGTH-MISMATCH", "SERIALIZE-MISMATCH",
+                 "SERIALIZE-HEX-MISMATCH")
 HEXRE = re.compile(r"^(?:[0-9a-f]{2})+$")
 HEXRUN = re.compile(r"[0-9a-f]{8,}")
 
@@ -583,6 +585,10 @@ def run_check(chk, tier, replay=None):
             if core == "BADCASE":
                 raise Infra("harness cannot run case %r" % c.line[:200])
             why = chk.oracle(c, ir, ctx)
+            if not why and core.split(" ")[0] in SELF_VERDICTS and not chk.compare(core, model[i]):
+                # the harness ran two public routes of the implementation side by side and they disagree on this input: a
+                # concrete failing input of its own, whatever the model says
+                why = "two public routes of the implementation answer this input differently (%s)" % core[:60]
             if why:
                 fails.append((i, prof, why, "oracle"))
             elif not chk.compare(core, model[i]):
